@@ -3,6 +3,7 @@ package main
 import (
 	"fmt"
 	"go/token"
+	"os"
 	"sort"
 	"strings"
 
@@ -68,6 +69,9 @@ func (c *Ctx) ruleToolIdentity() {
 					}
 				}
 				sort.Strings(ec.names)
+				if os.Getenv("GGV_TOOLID_DEBUG") != "" {
+					fmt.Printf("TOOLID env call %s %v\n", P.Pos(call.Pos()), ec.names)
+				}
 				calls = append(calls, ec)
 			}
 		})
@@ -228,7 +232,21 @@ func envNameRoots(P *Program, v ssa.Value) []ssa.Value {
 				// element of a slice/array literal: *(&lit[i])
 				if ia, ok := y.X.(*ssa.IndexAddr); ok && y.Op == token.MUL {
 					es := literalElems(P, ia.X)
+					if es == nil {
+						es = globalElems(P, ia.X)
+					}
 					if es != nil {
+						for _, e := range es {
+							walk(e, d+1)
+						}
+						continue
+					}
+				}
+				out = append(out, r)
+			case *ssa.Index:
+				// element of an array value: (*table)[i]
+				if ld, ok := y.X.(*ssa.UnOp); ok && ld.Op == token.MUL {
+					if es := globalElems(P, ld.X); es != nil {
 						for _, e := range es {
 							walk(e, d+1)
 						}
@@ -274,7 +292,7 @@ func literalElems(P *Program, x ssa.Value) []ssa.Value {
 						out = append(out, st.Val)
 					}
 				}
-			case *ssa.Slice, *ssa.DebugRef:
+			case *ssa.Slice, *ssa.DebugRef, *ssa.UnOp:
 			default:
 				return nil
 			}
@@ -527,4 +545,43 @@ func (c *Ctx) reachedOnVersionFlag(b *ssa.BasicBlock, fn *ssa.Function, depth in
 		}
 	}
 	return true
+}
+
+// globalElems: the values a package-level array / slice variable is initialised with (nil when g is not a global
+// that is written exactly once, in its package's init, with a literal).
+func globalElems(P *Program, g ssa.Value) []ssa.Value {
+	gl, ok := g.(*ssa.Global)
+	if !ok || gl.Pkg == nil {
+		return nil
+	}
+	// no other store anywhere in product code
+	n := 0
+	var init *ssa.Store
+	for _, fn := range P.ModFuncs {
+		allInstrs(fn, func(_ *ssa.BasicBlock, ins ssa.Instruction) {
+			st, ok := ins.(*ssa.Store)
+			if !ok {
+				return
+			}
+			if st.Addr == ssa.Value(gl) {
+				n++
+				init = st
+			}
+			if ia, ok := st.Addr.(*ssa.IndexAddr); ok && ia.X == ssa.Value(gl) {
+				n += 2 // an element assigned separately: not a plain literal
+			}
+		})
+	}
+	if n != 1 || init == nil || init.Parent().Name() != "init" {
+		return nil
+	}
+	switch v := init.Val.(type) {
+	case *ssa.UnOp:
+		if v.Op == token.MUL {
+			return literalElems(P, v.X)
+		}
+	case *ssa.Slice:
+		return literalElems(P, v)
+	}
+	return nil
 }
